@@ -24,6 +24,42 @@ def build_pipeline(prog: Sequence[str]):
     return p
 
 
+def build_via_file(prog: Sequence[str], scratch: str):
+    """Entry point: load_pipeline_from_yaml(<file>) instead of parse_pipeline_config(<mapping>)."""
+    import os
+
+    import yaml
+    from semantiva.configurations.load_pipeline_from_yaml import load_pipeline_from_yaml
+    from semantiva.pipeline import Pipeline
+
+    d = scratch.rstrip(os.sep) + "_cfg"  # next to the scratch directory (which is emptied before every run), under the run's root
+    os.makedirs(d, exist_ok=True)
+    yp = os.path.join(d, "p.yaml")
+    with open(yp, "w") as f:
+        yaml.safe_dump(gen.yaml_config(prog), f, sort_keys=False)
+    cfg = load_pipeline_from_yaml(yp)
+    return Pipeline(cfg.nodes)
+
+
+def build_with_classes(prog: Sequence[str]):
+    """Entry point: the Python API with processor CLASSES (resolved from the names) instead of strings."""
+    import copy
+
+    from semantiva.pipeline import Pipeline
+    from semantiva.registry import resolve_symbol
+
+    harness.load_config(gen.yaml_config(("src",)))  # extension loaded
+    nodes = []
+    for s_ in prog:
+        nd = copy.deepcopy(gen.SYMBOLS[s_]["node"])
+        try:
+            nd["processor"] = resolve_symbol(nd["processor"])
+        except Exception:
+            pass  # an unknown name stays a name: the framework reports it
+        nodes.append(nd)
+    return Pipeline(nodes)
+
+
 def build_aliased(prog: Sequence[str]):
     """The same program given through the Python API with ONE node-definition object per distinct symbol, listed as often as the
     symbol occurs (what a YAML alias or a reused dict produces): each occurrence is still its own node."""
@@ -151,6 +187,25 @@ def _worker(chunk):
                     if bad:
                         st["viol"].append((bad[0] + "|unusual-value", f"context key {k} = {vname}: " + bad[1],
                                            {"prog": list(prog), "data": dkv, "ctx": {kk: vv for kk, vv in full.items() if kk != k}, "menu": [k, vname]}))
+        # other entry points for the same configuration: a YAML file on disk; processor classes instead of names
+        if len(prog) <= 2 or st["programs"] % 7 == 0:
+            for how, builder in (("yaml-file", lambda: build_via_file(prog, scratch)), ("processor-classes", lambda: build_with_classes(prog))):
+                dk3 = data_kinds_for(prog)[-1]
+                cx3 = gen.contexts_for(prog)[-2 if len(gen.contexts_for(prog)) > 1 else 0]
+                refx = interp.run(prog, gen.ref_data(dk3), cx3)
+                try:
+                    px = builder()
+                except Exception as exc:
+                    if refx.status == "construct" and type(exc).__name__ == refx.error:
+                        continue  # the configuration is invalid: refused when the names are resolved, i.e. earlier than Pipeline(...)
+                    st["viol"].append((f"entry-point-refuses|{how}", f"{list(prog)} via {how}: {type(exc).__name__}: {exc}",
+                                       {"prog": list(prog), "data": dk3, "ctx": cx3, "entry": how}))
+                    continue
+                ref, real, bad = run_case(prog, dk3, cx3, px, scratch)
+                st["exec"] += 1
+                if bad and not (how == "processor-classes" and ref.status == "construct"):
+                    st["viol"].append((bad[0] + f"|entry-point-{how}", f"built through {how}: " + bad[1],
+                                       {"prog": list(prog), "data": dk3, "ctx": cx3, "entry": how}))
         # a second Pipeline built from the SAME in-memory node definitions behaves like the first
         try:
             from semantiva.pipeline import Pipeline as _P
@@ -259,6 +314,11 @@ def check(tier: str, seed: int) -> Result:
 def replay(case) -> List[Violation]:
     harness.quiet()
     scratch = harness.enter_scratch()
+    if case.get("entry"):
+        prog = tuple(case["prog"])
+        px = build_via_file(prog, scratch) if case["entry"] == "yaml-file" else build_with_classes(prog)
+        ref, real, bad = run_case(prog, case["data"], case["ctx"], px, scratch)
+        return [Violation(bad[0] + f"|entry-point-{case['entry']}", bad[1], case)] if bad else []
     if case.get("menu"):
         k, vname = case["menu"]
         ctx = {**case["ctx"], k: value_menu()[vname]}
